@@ -10,6 +10,7 @@
 //   C01 perft 1 lines      C02 printboard FEN        C05 bestmove legal / inside searchmoves, single bestmove
 //   C08 mate in one played C09 depth sequence <= d, termination, time budget   C14 staticeval == fresh evaluation
 //   C19 book answers come from the book named last, for the CURRENT position
+//   C04 `hash` prints the same key for the same position and different keys for different positions, process-wide
 #pragma once
 #include "../ref/refpolyglot.h"
 #include "../ref/refsolve.h"
@@ -26,7 +27,7 @@
 
 namespace us
 {
-enum Focus { F_C01, F_C02, F_C05, F_C08, F_C09, F_C14, F_C19 };
+enum Focus { F_C01, F_C02, F_C04, F_C05, F_C08, F_C09, F_C14, F_C19 };
 
 struct Clock
 {
@@ -130,6 +131,7 @@ inline bool run_inner(Tape& t, Report& rep, Focus focus)
     {
         // command kinds; the focus property's observable gets extra weight
         int k = t.weighted({5, 2, 2, 6, 2, 2, 2, 1});
+        if (focus == F_C04) k = t.weighted({5, 3, 2, 1, 0, 0, 1, 0, 8});
         if (focus == F_C02 && t.chance(1, 3)) k = 4;
         if (focus == F_C14 && t.chance(1, 3)) k = 5;
         if (focus == F_C01 && t.chance(1, 3)) k = 6;
@@ -141,7 +143,14 @@ inline bool run_inner(Tape& t, Report& rep, Focus focus)
         case 0:
         {
             // position: new / the very same line again / an extension of the previous line
-            int how = M.last_position_line.empty() ? 0 : t.weighted({4, 2, 3});
+            int how = M.last_position_line.empty() ? 0 : t.weighted({4, 3, 3});
+            if (how != 0 && t.chance(1, 2))
+            {
+                // "the same position again from a clean state" / "next move of a game after the GUI restarted the game"
+                send("ucinewgame");
+                M.newgame();
+                rep.cls("uci:ucinewgame_then_known_position_line");
+            }
             if (how == 1)
             {
                 send(M.last_position_line);  // identical text: must have the same effect as the first time
@@ -375,6 +384,36 @@ inline bool run_inner(Tape& t, Report& rep, Focus focus)
                 if (lastMate && mateY == 0) return rep.fail("mate:false_announcement:mate0", "score mate 0 announced\n session: " + transcript);
             }
             if (isLegal) rep.nontriv(fnv1a(transcript));
+            break;
+        }
+        case 8:
+        {
+            // C04 through the text layer: the key printed by `hash` is a function of the position for the whole process
+            size_t mark = R.out.size();
+            send("hash");
+            long li = R.out.wait_line(mark, [](const std::string& l) { return l.rfind("Hex: ", 0) == 0; }, 60000);
+            rep.eval();
+            rep.cls("uci:hash");
+            if (li < 0) break;
+            std::string hex = R.out.snapshot(size_t(li))[0].substr(5);
+            std::string k4 = ref::key4(M.cur);
+            static std::map<std::string, std::string> keyOf;   // position -> key text
+            static std::map<std::string, std::string> posOf;   // key text -> position
+            auto a = keyOf.find(k4);
+            if (a != keyOf.end())
+            {
+                rep.cls("uci:hash_of_a_position_seen_before");
+                rep.nontriv(fnv1a(transcript));
+                if (a->second != hex)
+                    return rep.fail("key:uci:same_position_different_key", "`hash` prints " + hex + " for " + k4 + " but printed " + a->second +
+                                                                               " for the same position earlier in this process\n session: " + transcript);
+            }
+            else if (keyOf.size() < 200000)
+                keyOf[k4] = hex;
+            auto b = posOf.find(hex);
+            if (b != posOf.end() && b->second != k4)
+                return rep.fail("key:uci:different_positions_same_key", "`hash` prints " + hex + " for " + k4 + " and printed the same key for " + b->second + "\n session: " + transcript);
+            if (posOf.size() < 200000) posOf[hex] = k4;
             break;
         }
         case 4:
